@@ -389,7 +389,7 @@ def inline_new_temporaries(fnode, base_names, stats):
           changed = True
           break
         continue
-      if _is_pure(S.value, attrs=False) or _stable_self_attr(S.value):
+      if _is_pure(S.value, attrs=False) or _stable_self_attr(S.value) or (_is_pure(S.value) and len(all_uses) == len(own_uses) and _uses_before_effects(blk, S, all_uses)):
         for u in all_uses:
           _replace_node(fnode, u, copy.deepcopy(S.value))
         blk.remove(S)
@@ -456,6 +456,62 @@ def inline_new_temporaries(fnode, base_names, stats):
   ast.fix_missing_locations(fnode)
 
 
+_PURE_CALLS = ('len', 'int', 'float', 'str', 'bool', 'isinstance', 'min', 'max', 'abs')
+
+
+def _uses_before_effects(blk, S, uses):
+  """Every use of the temporary defined by S (an attribute read) is evaluated before anything that could rebind the attribute:
+  in evaluation order after S no call completes, no attribute is stored and no loop is entered before the last use."""
+  remaining = set(id(u) for u in uses)
+  state = {'dirty': False, 'ok': True}
+
+  def expr(n):
+    # post-order = evaluation order
+    if isinstance(n, (ast.Lambda, ast.FunctionDef, ast.AsyncFunctionDef, ast.ClassDef)):
+      if any(id(x) in remaining for x in ast.walk(n)):
+        state['ok'] = False
+      return
+    if isinstance(n, (ast.ListComp, ast.SetComp, ast.GeneratorExp, ast.DictComp)):
+      if any(id(x) in remaining for x in ast.walk(n)) and any(isinstance(x, ast.Call) for x in ast.walk(n)):
+        state['ok'] = False
+    for ch in ast.iter_child_nodes(n):
+      expr(ch)
+    if id(n) in remaining:
+      remaining.discard(id(n))
+      if state['dirty']:
+        state['ok'] = False
+    if isinstance(n, ast.Call) and not (isinstance(n.func, ast.Name) and n.func.id in _PURE_CALLS):
+      state['dirty'] = True
+    if isinstance(n, (ast.Yield, ast.YieldFrom, ast.Await)):
+      state['dirty'] = True
+    if isinstance(n, ast.Attribute) and isinstance(n.ctx, (ast.Store, ast.Del)):
+      state['dirty'] = True
+
+  def stmt(st):
+    if not remaining:
+      return
+    if isinstance(st, (ast.For, ast.While, ast.AsyncFor)):
+      if any(id(x) in remaining for x in ast.walk(st)):
+        # a use inside a loop: fine only when the loop has no effects at all
+        if any(isinstance(x, (ast.Call, ast.Yield, ast.Await)) or (isinstance(x, ast.Attribute) and isinstance(x.ctx, ast.Store)) for x in ast.walk(st)):
+          state['ok'] = False
+          return
+      expr(st)
+      return
+    if isinstance(st, ast.Assign):
+      expr(st.value)
+      for t in st.targets:
+        expr(t)
+      return
+    expr(st)
+  i = blk.index(S)
+  for st in blk[i + 1:]:
+    if not remaining or not state['ok']:
+      break
+    stmt(st)
+  return state['ok'] and not remaining
+
+
 def _replace_node(root, old, new):
   for parent in ast.walk(root):
     for fld, val in ast.iter_fields(parent):
@@ -471,6 +527,630 @@ def _replace_node(root, old, new):
 
 
 _MIRROR = {ast.Eq: ast.Eq, ast.NotEq: ast.NotEq, ast.Lt: ast.Gt, ast.Gt: ast.Lt, ast.LtE: ast.GtE, ast.GtE: ast.LtE}
+
+
+def while_texts(fnode):
+  return sorted(set(ast.unparse(n.test) for n in own_nodes(fnode) if isinstance(n, ast.While)))
+
+
+def restore_while_tests(fnode, base_whiles, stats):
+  """`while True:` whose first statement is `if T: break` (no else) is `while not T:` when the reference function has a loop
+  with that test (and no `while True`-style loop of that shape)."""
+  for n in own_nodes(fnode):
+    if isinstance(n, ast.While) and isinstance(n.test, ast.Constant) and n.test.value is True and not n.orelse and len(n.body) >= 2:
+      f = n.body[0]
+      if isinstance(f, ast.If) and not f.orelse and len(f.body) == 1 and isinstance(f.body[0], ast.Break):
+        t = f.test
+        neg = t.operand if isinstance(t, ast.UnaryOp) and isinstance(t.op, ast.Not) else ast.UnaryOp(op=ast.Not(), operand=t)
+        if ast.unparse(neg) in base_whiles:
+          n.test = ast.copy_location(neg, t)
+          n.body = n.body[1:]
+          ast.fix_missing_locations(n)
+          stats['whiles'] = stats.get('whiles', 0) + 1
+
+
+def acquire_release_to_with(tree, stats):
+  """`X.acquire(); try: B finally: X.release()`  is  `with X: B`  (locks: __enter__/__exit__ are acquire/release)."""
+  for node in ast.walk(tree):
+    for fld in ('body', 'orelse', 'finalbody'):
+      blk = getattr(node, fld, None)
+      if not (isinstance(blk, list) and blk and isinstance(blk[0], ast.stmt)):
+        continue
+      i = 0
+      while i + 1 < len(blk):
+        a, t = blk[i], blk[i + 1]
+        if (isinstance(a, ast.Expr) and isinstance(a.value, ast.Call) and isinstance(a.value.func, ast.Attribute) and a.value.func.attr == 'acquire'
+            and not a.value.args and not a.value.keywords and isinstance(t, ast.Try) and not t.handlers and not t.orelse and len(t.finalbody) == 1):
+          r = t.finalbody[0]
+          if (isinstance(r, ast.Expr) and isinstance(r.value, ast.Call) and isinstance(r.value.func, ast.Attribute) and r.value.func.attr == 'release'
+              and not r.value.args and not r.value.keywords and ast.unparse(r.value.func.value) == ast.unparse(a.value.func.value)):
+            w = ast.With(items=[ast.withitem(context_expr=a.value.func.value, optional_vars=None)], body=t.body)
+            ast.copy_location(w, a)
+            blk[i:i + 2] = [w]
+            stats['withs'] = stats.get('withs', 0) + 1
+            continue
+        i += 1
+  ast.fix_missing_locations(tree)
+
+
+def splice_starred_literals(tree, stats):
+  """f(a, *(b, c))  is  f(a, b, c)."""
+  for n in ast.walk(tree):
+    if isinstance(n, ast.Call) and any(isinstance(a, ast.Starred) and isinstance(a.value, (ast.Tuple, ast.List)) for a in n.args):
+      out = []
+      for a in n.args:
+        if isinstance(a, ast.Starred) and isinstance(a.value, (ast.Tuple, ast.List)) and not any(isinstance(e, ast.Starred) for e in a.value.elts):
+          out.extend(a.value.elts)
+          stats['spliced'] = stats.get('spliced', 0) + 1
+        else:
+          out.append(a)
+      n.args = out
+
+
+def split_withs(tree, stats):
+  """`with A, B: body` is by definition `with A: with B: body`."""
+  for n in ast.walk(tree):
+    if isinstance(n, (ast.With, ast.AsyncWith)) and len(n.items) > 1:
+      inner = type(n)(items=n.items[1:], body=n.body)
+      ast.copy_location(inner, n)
+      n.items = n.items[:1]
+      n.body = [inner]
+      stats['withs'] = stats.get('withs', 0) + 1
+
+
+def _is_assign_to(st, name):
+  return isinstance(st, ast.Assign) and len(st.targets) == 1 and isinstance(st.targets[0], ast.Name) and st.targets[0].id == name
+
+
+def merge_flag_or(fnode, base_names, stats):
+  """`x = A; if not x: x = B`  ->  `x = A or B`   (`if x: x = B` -> `x = A and B`) for a local x the reference does not know."""
+  for b in _blocks(fnode):
+    i = 0
+    while i + 1 < len(b):
+      s1, s2 = b[i], b[i + 1]
+      if (isinstance(s1, ast.Assign) and len(s1.targets) == 1 and isinstance(s1.targets[0], ast.Name) and s1.targets[0].id not in base_names
+          and isinstance(s2, ast.If) and not s2.orelse and len(s2.body) == 1 and _is_assign_to(s2.body[0], s1.targets[0].id)):
+        x = s1.targets[0].id
+        t = s2.test
+        op = None
+        if isinstance(t, ast.UnaryOp) and isinstance(t.op, ast.Not) and isinstance(t.operand, ast.Name) and t.operand.id == x:
+          op = ast.Or()
+        elif isinstance(t, ast.Name) and t.id == x:
+          op = ast.And()
+        if op is not None and not any(isinstance(n, ast.Name) and n.id == x for n in ast.walk(s2.body[0].value)):
+          s1.value = ast.copy_location(ast.BoolOp(op=op, values=[s1.value, s2.body[0].value]), s1.value)
+          del b[i + 1]
+          stats['flags'] = stats.get('flags', 0) + 1
+          continue
+      i += 1
+  ast.fix_missing_locations(fnode)
+
+
+def split_joined_flag(fnode, base_names, stats):
+  """if c: ...; x = e1  else: ...; x = e2      (x a local the reference does not know, read only by the next test)
+     if x: BODY [else: ALT]
+  ->  the second `if` is copied to the end of both branches with x replaced by its definition there (constants select a branch)."""
+  changed = True
+  while changed:
+    changed = False
+    for b in _blocks(fnode):
+      for k in range(len(b) - 1):
+        s1, s2 = b[k], b[k + 1]
+        if not (isinstance(s1, ast.If) and s1.orelse and isinstance(s2, ast.If)):
+          continue
+        t = s2.test
+        neg = isinstance(t, ast.UnaryOp) and isinstance(t.op, ast.Not)
+        nm = t.operand if neg else t
+        if not isinstance(nm, ast.Name) or nm.id in base_names or nm.id in params_of(fnode):
+          continue
+        x = nm.id
+        if not (s1.body and s1.orelse and _is_assign_to(s1.body[-1], x) and _is_assign_to(s1.orelse[-1], x)):
+          continue
+        loads = [n for n in ast.walk(fnode) if isinstance(n, ast.Name) and n.id == x and isinstance(n.ctx, ast.Load)]
+        stores = [n for n in ast.walk(fnode) if isinstance(n, ast.Name) and n.id == x and isinstance(n.ctx, ast.Store)]
+        if len(loads) != 1 or len(stores) != 2:
+          continue
+
+        def tail(e):
+          if isinstance(e, ast.Constant) and isinstance(e.value, bool):
+            v = (not e.value) if neg else e.value
+            return [copy.deepcopy(st) for st in (s2.body if v else s2.orelse)]
+          test = ast.UnaryOp(op=ast.Not(), operand=copy.deepcopy(e)) if neg else copy.deepcopy(e)
+          n = ast.If(test=test, body=[copy.deepcopy(st) for st in s2.body], orelse=[copy.deepcopy(st) for st in s2.orelse])
+          return [ast.copy_location(n, s2)]
+        s1.body = s1.body[:-1] + tail(s1.body[-1].value) or [ast.Pass()]
+        s1.orelse = s1.orelse[:-1] + tail(s1.orelse[-1].value)
+        if not s1.body:
+          s1.body = [ast.Pass()]
+        del b[k + 1]
+        stats['flags'] = stats.get('flags', 0) + 1
+        ast.fix_missing_locations(fnode)
+        changed = True
+        break
+      if changed:
+        break
+
+
+def loop_flag_to_break(fnode, base_names, stats):
+  """done = False; while not done: ... done = True ... [if not done: REST]   ->   while True: ... break ... REST
+  for a flag the reference does not know, when everything that runs after each `done = True` up to the loop test is guarded by
+  `if not done:`."""
+  for b in _blocks(fnode):
+    for i in range(1, len(b)):
+      L, init = b[i], b[i - 1]
+      if not (isinstance(L, ast.While) and not L.orelse and isinstance(L.test, ast.UnaryOp) and isinstance(L.test.op, ast.Not) and isinstance(L.test.operand, ast.Name)):
+        continue
+      f = L.test.operand.id
+      if f in base_names or not (_is_assign_to(init, f) and isinstance(init.value, ast.Constant) and init.value.value is False):
+        continue
+      stores = [n for n in ast.walk(fnode) if isinstance(n, ast.Name) and n.id == f and isinstance(n.ctx, ast.Store)]
+      sets = []
+      guards = []
+      ok = [True]
+
+      def is_guard(st):
+        return (isinstance(st, ast.If) and not st.orelse and isinstance(st.test, ast.UnaryOp) and isinstance(st.test.op, ast.Not)
+                and isinstance(st.test.operand, ast.Name) and st.test.operand.id == f)
+
+      def walk(stmts, cont_ok):
+        # cont_ok: everything that follows this block up to the loop test is guarded
+        for k, st in enumerate(stmts):
+          rest = stmts[k + 1:]
+          rest_ok = cont_ok and all(is_guard(r) for r in rest)
+          if _is_assign_to(st, f):
+            if isinstance(st.value, ast.Constant) and st.value.value is True and rest_ok:
+              sets.append((stmts, st))
+            else:
+              ok[0] = False
+          elif is_guard(st):
+            guards.append((stmts, st))
+            walk(st.body, rest_ok)
+          elif isinstance(st, (ast.For, ast.While, ast.AsyncFor, ast.FunctionDef, ast.AsyncFunctionDef, ast.ClassDef)):
+            if any(isinstance(n, ast.Name) and n.id == f for n in ast.walk(st)):
+              ok[0] = False
+          elif isinstance(st, ast.If):
+            walk(st.body, rest_ok)
+            walk(st.orelse, rest_ok)
+          elif isinstance(st, ast.With):
+            walk(st.body, rest_ok)
+          elif isinstance(st, ast.Try):
+            if st.finalbody and any(isinstance(n, ast.Name) and n.id == f for x in st.finalbody for n in ast.walk(x)):
+              ok[0] = False
+            walk(st.body, rest_ok and not st.orelse)
+            for h in st.handlers:
+              walk(h.body, rest_ok)
+            walk(st.orelse, rest_ok)
+          elif any(isinstance(n, ast.Name) and n.id == f for n in ast.walk(st)):
+            ok[0] = False
+      walk(L.body, True)
+      if not ok[0] or not sets or len(stores) != len(sets) + 1:
+        continue
+      loads = [n for n in ast.walk(fnode) if isinstance(n, ast.Name) and n.id == f and isinstance(n.ctx, ast.Load)]
+      if len(loads) != 1 + len(guards):
+        continue
+      for blk, st in sets:
+        blk[blk.index(st)] = ast.copy_location(ast.Break(), st)
+      for blk, st in guards:
+        k = blk.index(st)
+        blk[k:k + 1] = st.body
+      L.test = ast.copy_location(ast.Constant(value=True), L.test)
+      b.remove(init)
+      stats['flags'] = stats.get('flags', 0) + 1
+      ast.fix_missing_locations(fnode)
+      return loop_flag_to_break(fnode, base_names, stats)
+
+
+def final_break_to_return(fnode, base_has_break, stats):
+  """A `break` out of the loop that is the last statement of the function is `return` (reference functions without any break)."""
+  if base_has_break or not fnode.body or not isinstance(fnode.body[-1], (ast.While, ast.For)) or fnode.body[-1].orelse:
+    return
+  L = fnode.body[-1]
+
+  def walk(stmts):
+    for k, st in enumerate(stmts):
+      if isinstance(st, ast.Break):
+        stmts[k] = ast.copy_location(ast.Return(value=None), st)
+        stats['flags'] = stats.get('flags', 0) + 1
+      elif isinstance(st, (ast.For, ast.While, ast.AsyncFor, ast.FunctionDef, ast.AsyncFunctionDef, ast.ClassDef)):
+        continue
+      else:
+        for fld in ('body', 'orelse', 'finalbody'):
+          sub = getattr(st, fld, None)
+          if isinstance(sub, list) and sub and isinstance(sub[0], ast.stmt):
+            walk(sub)
+        for h in getattr(st, 'handlers', []) or []:
+          walk(h.body)
+  walk(L.body)
+
+
+def return_flag_elim(fnode, base_names, stats):
+  """Single-exit style: a final `return x` (x a local the reference does not know) is pushed back into the branches that
+  assign x last:  x = c0; if A: ...; x = e1 [else: ...]; return x   ->   if A: ...; return e1 else: ...; return c0."""
+  if len(fnode.body) < 2 or not isinstance(fnode.body[-1], ast.Return) or not isinstance(fnode.body[-1].value, ast.Name):
+    return
+  x = fnode.body[-1].value.id
+  if x in base_names or x in params_of(fnode):
+    return
+  # x must only be assigned by plain `x = e` statements outside loops and nested scopes
+  for n in ast.walk(fnode):
+    if isinstance(n, (ast.For, ast.While, ast.AsyncFor, ast.Try)) and any(isinstance(m, ast.Name) and m.id == x and isinstance(m.ctx, ast.Store) for m in ast.walk(n)):
+      return
+    if isinstance(n, (ast.AugAssign,)) and isinstance(n.target, ast.Name) and n.target.id == x:
+      return
+  loads = [n for n in ast.walk(fnode) if isinstance(n, ast.Name) and n.id == x and isinstance(n.ctx, ast.Load)]
+  if len(loads) != 1:
+    return
+
+  def const(e):
+    return isinstance(e, ast.Constant) or (isinstance(e, ast.UnaryOp) and isinstance(e.operand, ast.Constant))
+
+  def push(stmts, known):
+    """stmts followed by `return x`; known = constant value of x at entry (or None)."""
+    for st in stmts[:-1]:
+      if _is_assign_to(st, x):
+        known = st.value if const(st.value) else False
+      elif any(isinstance(m, ast.Name) and m.id == x and isinstance(m.ctx, ast.Store) for m in ast.walk(st)):
+        known = False
+    if stmts:
+      last = stmts[-1]
+      if _is_assign_to(last, x):
+        return stmts[:-1] + [ast.copy_location(ast.Return(value=last.value), last)]
+      if isinstance(last, ast.If):
+        nb = push(last.body, known)
+        no = push(last.orelse, known)
+        if nb is None or no is None:
+          return None
+        last.body, last.orelse = nb, no
+        return stmts
+      if isinstance(last, ast.With):
+        nb = push(last.body, known)
+        if nb is None:
+          return None
+        last.body = nb
+        return stmts
+      if any(isinstance(m, ast.Name) and m.id == x and isinstance(m.ctx, ast.Store) for m in ast.walk(last)):
+        return None
+    if known is None or known is False:
+      return None
+    return stmts + [ast.Return(value=copy.deepcopy(known))]
+  nb = push(fnode.body[:-1], None)
+  if nb is None:
+    return
+  fnode.body = nb
+  # the initial constant definition is dead now
+  for b in _blocks(fnode):
+    for st in list(b):
+      if _is_assign_to(st, x) and const(st.value) and not any(isinstance(n, ast.Name) and n.id == x and isinstance(n.ctx, ast.Load) for n in ast.walk(fnode)):
+        b.remove(st)
+        if not b:
+          b.append(ast.Pass())
+  stats['flags'] = stats.get('flags', 0) + 1
+  ast.fix_missing_locations(fnode)
+
+
+def restore_tail_recursion(fnode, bsrc, stats):
+  """`while True: B` (no break) as the whole body of a parameterless method whose reference version ends its retry branch with
+  the tail call `return self.<itself>()`:  ->  `B; return self.<itself>()` (falling off B starts over, exactly like the loop)."""
+  ps = params_of(fnode)
+  if len(ps) != 1 or ps[0] != 'self':
+    return
+  tail = [n for n in ast.walk(bsrc) if isinstance(n, ast.Return) and isinstance(n.value, ast.Call) and not n.value.args and not n.value.keywords
+          and isinstance(n.value.func, ast.Attribute) and isinstance(n.value.func.value, ast.Name) and n.value.func.value.id == 'self' and n.value.func.attr == bsrc.name]
+  if not tail:
+    return
+  body = [st for st in fnode.body if not (isinstance(st, ast.Expr) and isinstance(st.value, ast.Constant))]
+  if len(body) != 1 or not isinstance(body[0], ast.While) or not (isinstance(body[0].test, ast.Constant) and body[0].test.value is True) or body[0].orelse:
+    return
+  L = body[0]
+  for n in ast.walk(L):
+    if isinstance(n, (ast.Break, ast.For, ast.While, ast.AsyncFor)) and n is not L:
+      return
+  # no local state carried from one iteration to the next
+  seen = set()
+  for n in sorted([x for x in ast.walk(L) if isinstance(x, ast.Name)], key=lambda x: (getattr(x, 'lineno', 0), getattr(x, 'col_offset', 0), isinstance(x.ctx, ast.Store))):
+    if isinstance(n.ctx, ast.Store):
+      seen.add(n.id)
+  loc = set(nm for nm, _ in local_defs_fp(fnode)[1])
+  first_use = {}
+  for st in L.body:
+    pass
+  stores_before = set()
+
+  def scan(stmts):
+    for st in stmts:
+      for n in ast.walk(st) if not isinstance(st, (ast.If, ast.Try, ast.With)) else []:
+        if isinstance(n, ast.Name) and n.id in loc and isinstance(n.ctx, ast.Load) and n.id not in stores_before:
+          return False
+      if isinstance(st, ast.Assign):
+        for t in st.targets:
+          for nm, _ in _targets(t):
+            stores_before.add(nm)
+    return True
+  if loc and not scan(L.body):
+    return
+  call = copy.deepcopy(tail[0])
+
+  class C(ast.NodeTransformer):
+    def visit_Continue(self, node):
+      return ast.copy_location(copy.deepcopy(call), node)
+
+    def visit_FunctionDef(self, node):
+      return node
+    visit_AsyncFunctionDef = visit_Lambda = visit_FunctionDef
+  nb = [C().visit(st) for st in L.body]
+  k = fnode.body.index(L)
+  fnode.body[k:k + 1] = nb + [ast.copy_location(call, L)]
+  ast.fix_missing_locations(fnode)
+  stats['tailrec'] = stats.get('tailrec', 0) + 1
+
+
+def lower_new_next(fnode, bsrc, stats):
+  """x = next((V for T in ITER if C), D)   (first match or default; the reference function has no such next())
+  ->  x = D; for T in ITER: if C: x = V; break         (a generator ITER `(G for e in S)` becomes `for e in S: T = G`)."""
+  if any(isinstance(n, ast.Call) and isinstance(n.func, ast.Name) and n.func.id == 'next' for n in ast.walk(bsrc)):
+    return
+  for b in _blocks(fnode):
+    k = 0
+    while k < len(b):
+      st = b[k]
+      k += 1
+      if not (isinstance(st, ast.Assign) and len(st.targets) == 1 and isinstance(st.targets[0], ast.Name) and isinstance(st.value, ast.Call)
+              and isinstance(st.value.func, ast.Name) and st.value.func.id == 'next' and len(st.value.args) == 2 and not st.value.keywords
+              and isinstance(st.value.args[0], ast.GeneratorExp) and len(st.value.args[0].generators) == 1):
+        continue
+      g = st.value.args[0]
+      gen = g.generators[0]
+      if gen.is_async or not _is_pure(st.value.args[1]):
+        continue
+      x = st.targets[0].id
+      hit = [ast.Assign(targets=[ast.Name(id=x, ctx=ast.Store())], value=g.elt), ast.Break()]
+      inner = hit
+      for c in reversed(gen.ifs):
+        inner = [ast.If(test=c, body=inner, orelse=[])]
+      it, tgt = gen.iter, gen.target
+      if isinstance(it, ast.GeneratorExp) and len(it.generators) == 1 and not it.generators[0].ifs and not it.generators[0].is_async:
+        inner = [ast.Assign(targets=[copy.deepcopy(tgt)], value=it.elt)] + inner
+        # targets of the flattened assignment are stores
+        for n in ast.walk(inner[0].targets[0]):
+          if hasattr(n, 'ctx'):
+            n.ctx = ast.Store()
+        tgt, it = it.generators[0].target, it.generators[0].iter
+      loop = ast.For(target=tgt, iter=it, body=inner, orelse=[])
+      init = ast.Assign(targets=[ast.Name(id=x, ctx=ast.Store())], value=st.value.args[1])
+      for n in (init, loop):
+        ast.copy_location(n, st)
+      b[k - 1:k] = [init, loop]
+      k += 1
+      stats['next_lowered'] = stats.get('next_lowered', 0) + 1
+  ast.fix_missing_locations(fnode)
+
+
+def lower_new_extend(fnode, bsrc, stats):
+  """X.extend([E for t in S if c])  (reference function never extends)  ->  for t in S: if c: X.append(E)."""
+  if any(isinstance(n, ast.Attribute) and n.attr == 'extend' for n in ast.walk(bsrc)):
+    return
+  for b in _blocks(fnode):
+    for k, st in enumerate(b):
+      if not (isinstance(st, ast.Expr) and isinstance(st.value, ast.Call) and isinstance(st.value.func, ast.Attribute) and st.value.func.attr == 'extend'
+              and len(st.value.args) == 1 and not st.value.keywords and isinstance(st.value.args[0], (ast.ListComp, ast.GeneratorExp))
+              and isinstance(st.value.func.value, ast.Name)):
+        continue
+      comp = st.value.args[0]
+      inner = [ast.Expr(value=ast.Call(func=ast.Attribute(value=st.value.func.value, attr='append', ctx=ast.Load()), args=[comp.elt], keywords=[]))]
+      for g in reversed(comp.generators):
+        if g.is_async:
+          inner = None
+          break
+        for c in reversed(g.ifs):
+          inner = [ast.If(test=c, body=inner, orelse=[])]
+        inner = [ast.For(target=g.target, iter=g.iter, body=inner, orelse=[])]
+      if inner is None:
+        continue
+      ast.copy_location(inner[0], st)
+      b[k] = inner[0]
+      stats['next_lowered'] = stats.get('next_lowered', 0) + 1
+  ast.fix_missing_locations(fnode)
+
+
+def box_nonlocals(fnode, bsrc, stats):
+  """nonlocal x; x -= 1   (closure counter rebound through `nonlocal`)   ->   x = [init]; x[0] -= 1   when the reference function keeps that
+  variable in a one-element list (the pre-`nonlocal` idiom for the same thing)."""
+  names = set()
+  for n in ast.walk(fnode):
+    if isinstance(n, ast.Nonlocal):
+      names |= set(n.names)
+  if not names:
+    return
+  boxed = set()
+  for n in ast.walk(bsrc):
+    if isinstance(n, ast.Assign) and len(n.targets) == 1 and isinstance(n.targets[0], ast.Name) and isinstance(n.value, ast.List) and len(n.value.elts) == 1:
+      boxed.add(n.targets[0].id)
+  for x in sorted(names & boxed):
+    # only when x is a plain local of fnode itself
+    own_stores = [n for n in own_nodes(fnode) if isinstance(n, ast.Assign) and len(n.targets) == 1 and isinstance(n.targets[0], ast.Name) and n.targets[0].id == x]
+    if len(own_stores) != 1 or x in params_of(fnode):
+      continue
+    init = own_stores[0]
+
+    class B(ast.NodeTransformer):
+      def visit_Name(self, node):
+        if node.id == x:
+          return ast.copy_location(ast.Subscript(value=ast.Name(id=x, ctx=ast.Load()), slice=ast.Constant(value=0), ctx=node.ctx), node)
+        return node
+
+      def visit_Nonlocal(self, node):
+        node.names = [nm for nm in node.names if nm != x]
+        return node if node.names else None
+    val = init.value
+    fnode.body = [B().visit(st) for st in fnode.body]
+    init.targets = [ast.Name(id=x, ctx=ast.Store())]
+    init.value = ast.List(elts=[val], ctx=ast.Load())
+    # empty bodies after dropping `nonlocal`
+    for n in ast.walk(fnode):
+      if isinstance(n, (ast.FunctionDef, ast.AsyncFunctionDef)) and not n.body:
+        n.body = [ast.Pass()]
+    stats['boxed'] = stats.get('boxed', 0) + 1
+  ast.fix_missing_locations(fnode)
+
+
+def lower_dict_dispatch(fnode, bsrc, stats):
+  """T = {K1: V1, K2: V2}.get(X, D)   (X, Ki, Vi, D side-effect free; the reference function has no such table)
+  ->  if X == K1: T = V1 elif X == K2: T = V2 else: T = D."""
+  if any(isinstance(n, ast.Call) and isinstance(n.func, ast.Attribute) and n.func.attr == 'get' and isinstance(n.func.value, ast.Dict) for n in ast.walk(bsrc)):
+    return
+  for b in _blocks(fnode):
+    for k, st in enumerate(b):
+      if not (isinstance(st, ast.Assign) and len(st.targets) == 1 and isinstance(st.value, ast.Call) and isinstance(st.value.func, ast.Attribute)
+              and st.value.func.attr == 'get' and isinstance(st.value.func.value, ast.Dict) and len(st.value.args) in (1, 2) and not st.value.keywords):
+        continue
+      d = st.value.func.value
+      x = st.value.args[0]
+      dflt = st.value.args[1] if len(st.value.args) == 2 else ast.Constant(value=None)
+      if not d.keys or any(kk is None for kk in d.keys) or not all(_is_pure(e) for e in list(d.keys) + list(d.values) + [x, dflt]):
+        continue
+      node = None
+      for kk, vv in reversed(list(zip(d.keys, d.values))):
+        branch = ast.If(test=ast.Compare(left=copy.deepcopy(x), ops=[ast.Eq()], comparators=[kk]),
+                        body=[ast.Assign(targets=copy.deepcopy(st.targets), value=vv)],
+                        orelse=[node] if node is not None else [ast.Assign(targets=copy.deepcopy(st.targets), value=dflt)])
+        node = branch
+      ast.copy_location(node, st)
+      b[k] = node
+      stats['dict_dispatch'] = stats.get('dict_dispatch', 0) + 1
+  ast.fix_missing_locations(fnode)
+
+
+def lower_new_listcomps(fnode, bsrc, base_names, stats):
+  """The reference function builds a list with an explicit loop (`acc = []; for ...: acc.append(E)`) and has no list comprehension;
+  a list comprehension of the current function (evaluated before anything else of its statement that has effects) is written out
+  the same way."""
+  if any(isinstance(n, ast.ListComp) for n in ast.walk(bsrc)):
+    return
+  if not any(isinstance(n, ast.For) and any(isinstance(c, ast.Call) and isinstance(c.func, ast.Attribute) and c.func.attr == 'append' for c in ast.walk(n)) for n in ast.walk(bsrc)):
+    return
+  # reference accumulator name: the list initialised by `name = []`
+  acc_names = [n.targets[0].id for n in ast.walk(bsrc) if isinstance(n, ast.Assign) and len(n.targets) == 1 and isinstance(n.targets[0], ast.Name)
+               and isinstance(n.value, ast.List) and not n.value.elts]
+  for b in _blocks(fnode):
+    for k, st in enumerate(b):
+      if not isinstance(st, (ast.Assign, ast.Return, ast.Expr)) or getattr(st, 'value', None) is None:
+        continue
+      comps = [n for n in ast.walk(st.value) if isinstance(n, ast.ListComp)]
+      if len(comps) != 1 or any(isinstance(n, (ast.Lambda, ast.GeneratorExp, ast.SetComp, ast.DictComp)) and any(x is comps[0] for x in ast.walk(n)) for n in ast.walk(st.value)):
+        continue
+      L = comps[0]
+      if any(g.is_async for g in L.generators) or (L is not st.value and not _hoistable(st.value, L)):
+        continue
+      used = set(n.id for n in ast.walk(fnode) if isinstance(n, ast.Name))
+      direct = isinstance(st, ast.Assign) and L is st.value and len(st.targets) == 1 and isinstance(st.targets[0], ast.Name) \
+        and not any(isinstance(n, ast.Name) and n.id == st.targets[0].id for n in ast.walk(L))
+      acc = st.targets[0].id if direct else (next((a for a in acc_names if a not in used), None) or '__acc')
+      if acc in used and not direct:
+        continue
+      inner = [ast.Expr(value=ast.Call(func=ast.Attribute(value=ast.Name(id=acc, ctx=ast.Load()), attr='append', ctx=ast.Load()), args=[L.elt], keywords=[]))]
+      for g in reversed(L.generators):
+        for c in reversed(g.ifs):
+          inner = [ast.If(test=c, body=inner, orelse=[])]
+        inner = [ast.For(target=g.target, iter=g.iter, body=inner, orelse=[])]
+      init = ast.Assign(targets=[ast.Name(id=acc, ctx=ast.Store())], value=ast.List(elts=[], ctx=ast.Load()))
+      ref = ast.Name(id=acc, ctx=ast.Load())
+      if L is st.value:
+        st.value = ref
+      else:
+        _replace_node(st, L, ref)
+      for n in (init, inner[0]):
+        ast.copy_location(n, st)
+      if direct:
+        b[k:k + 1] = [init, inner[0]]
+      else:
+        b[k:k] = [init, inner[0]]
+      stats['next_lowered'] = stats.get('next_lowered', 0) + 1
+      ast.fix_missing_locations(fnode)
+      return
+
+
+def _is_partial_call(n):
+  return isinstance(n, ast.Call) and ast.unparse(n.func) in ('functools.partial', 'partial') and n.args and not any(isinstance(a, ast.Starred) for a in n.args) \
+    and all(k.arg is not None for k in n.keywords)
+
+
+def apply_partials(fnode, base_names, stats):
+  """functools.partial(f, a, k=v)(x)  is  f(a, x, k=v);  a local the reference does not know that is bound once to such a partial of constant
+  arguments and only ever called is replaced by the call it stands for."""
+  def merge(p, call):
+    kws = dict((k.arg, k.value) for k in p.keywords)
+    for k in call.keywords:
+      if k.arg is None:
+        return None
+      kws[k.arg] = k.value
+    return ast.copy_location(ast.Call(func=p.args[0], args=list(p.args[1:]) + list(call.args), keywords=[ast.keyword(arg=a, value=v) for a, v in kws.items()]), call)
+  # aliases
+  params, locs = local_defs_fp(fnode)
+  for nm, fps in locs:
+    if nm in base_names or len(fps) != 1:
+      continue
+    defs = [st for b in _blocks(fnode) for st in b if _is_assign_to(st, nm)]
+    if len(defs) != 1 or not _is_partial_call(defs[0].value):
+      continue
+    p = defs[0].value
+    if not all(isinstance(a, ast.Constant) for a in list(p.args[1:]) + [k.value for k in p.keywords]) or not isinstance(p.args[0], (ast.Name, ast.Attribute)):
+      continue
+    uses = _loads(fnode, nm)
+    calls = [c for c in ast.walk(fnode) if isinstance(c, ast.Call) and isinstance(c.func, ast.Name) and c.func.id == nm]
+    if not uses or len(calls) != len(uses):
+      continue
+    okk = True
+    for c in calls:
+      m = merge(copy.deepcopy(p), c)
+      if m is None:
+        okk = False
+        break
+      _replace_node(fnode, c, m)
+    if okk:
+      for b in _blocks(fnode):
+        if defs[0] in b:
+          b.remove(defs[0])
+      stats['partials'] = stats.get('partials', 0) + 1
+  # immediate application
+  changed = True
+  while changed:
+    changed = False
+    for c in ast.walk(fnode):
+      if isinstance(c, ast.Call) and _is_partial_call(c.func):
+        m = merge(c.func, c)
+        if m is not None:
+          _replace_node(fnode, c, m)
+          stats['partials'] = stats.get('partials', 0) + 1
+          changed = True
+          break
+  ast.fix_missing_locations(fnode)
+
+
+def flatten_genexp_loops(fnode, stats):
+  """for T in (G for e in S): B   ->   for e in S: T = G; B      (a lazily mapped iterable consumed by one loop)."""
+  for n in own_nodes(fnode):
+    if isinstance(n, ast.For) and isinstance(n.iter, ast.GeneratorExp) and len(n.iter.generators) == 1 and not n.iter.generators[0].ifs \
+       and not n.iter.generators[0].is_async and not n.orelse and not any(isinstance(x, ast.Continue) for x in ast.walk(n)):
+      g = n.iter
+      asg = ast.Assign(targets=[n.target], value=g.elt)
+      ast.copy_location(asg, n)
+      n.body = [asg] + n.body
+      n.target, n.iter = g.generators[0].target, g.generators[0].iter
+      stats['next_lowered'] = stats.get('next_lowered', 0) + 1
+  ast.fix_missing_locations(fnode)
+
+
+def base_source_fn(rel, qualname):
+  src = load_baseline().get('sources', {}).get(rel + '::' + qualname)
+  if not src:
+    return None
+  key = ('src', rel, qualname)
+  if key not in _cache:
+    try:
+      _cache[key] = ast.parse(src).body[0]
+    except Exception:
+      _cache[key] = None
+  return _cache[key]
 
 
 def compare_texts(fnode):
@@ -582,6 +1262,20 @@ def rename_function(fnode, rel, qualname, base_funcs, stats):
     fnode.body = [r.visit(s) for s in fnode.body]
   try:
     base_names = set(base.get('params', [])) | set(b[0] for b in base.get('locals', []))
+    bsrc = base_source_fn(rel, qualname)
+    try:
+      restore_while_tests(fnode, set(base.get('whiles', [])), stats)
+      merge_flag_or(fnode, base_names, stats)
+      split_joined_flag(fnode, base_names, stats)
+      loop_flag_to_break(fnode, base_names, stats)
+      if bsrc is not None:
+        box_nonlocals(fnode, bsrc, stats)
+        lower_new_next(fnode, bsrc, stats)
+        restore_tail_recursion(fnode, bsrc, stats)
+        final_break_to_return(fnode, any(isinstance(n, ast.Break) for n in ast.walk(bsrc)), stats)
+      return_flag_elim(fnode, base_names, stats)
+    except Exception as e:
+      stats['flag_error'] = repr(e)
     for _pass in range(2):
       before = stats.get('temps', 0)
       inline_new_temporaries(fnode, base_names, stats)
@@ -595,8 +1289,23 @@ def rename_function(fnode, rel, qualname, base_funcs, stats):
         fnode.body = [r.visit(s) for s in fnode.body]
       if stats.get('temps', 0) == before and not mapping:
         break
+    if bsrc is not None:
+      try:
+        apply_partials(fnode, base_names, stats)
+        splice_starred_literals(fnode, stats)
+        lower_dict_dispatch(fnode, bsrc, stats)
+        lower_new_next(fnode, bsrc, stats)
+        lower_new_extend(fnode, bsrc, stats)
+        lower_new_listcomps(fnode, bsrc, base_names, stats)
+        flatten_genexp_loops(fnode, stats)
+      except Exception as e:
+        stats['flag_error'] = repr(e)
   except Exception as e:
     stats['temps_error'] = repr(e)
+  try:
+    restore_while_tests(fnode, set(base.get('whiles', [])), stats)
+  except Exception as e:
+    stats['while_error'] = repr(e)
   try:
     split_new_tuple_assigns(fnode, set(base.get('tuple_assigns', [])), stats)
   except Exception as e:
@@ -1024,6 +1733,8 @@ def inline_new_helpers(tree, rel, inventory, stats):
         continue
       if d.decorator_list and not all(ast.unparse(x) in ('staticmethod',) for x in d.decorator_list):
         continue
+      if any(isinstance(n, (ast.Yield, ast.YieldFrom, ast.Await)) for n in own_nodes(d)):
+        continue     # a generator/coroutine body does not run at the call
       new[d.name] = d
     if not new:
       return []
@@ -1212,6 +1923,11 @@ def normalize_module(tree, rel, stats=None):
   except Exception as e:
     stats['log_error'] = repr(e)
   try:
+    acquire_release_to_with(tree, stats)
+    split_withs(tree, stats)
+  except Exception as e:
+    stats['with_error'] = repr(e)
+  try:
     reclose_partials(tree, rel, b.get('inventory', {}), stats)
   except Exception as e:
     stats['reclose_error'] = repr(e)
@@ -1221,6 +1937,14 @@ def normalize_module(tree, rel, stats=None):
     stats['inline_error'] = repr(e)
 
   rename_pass(tree, rel, stats)
+  # lowering (comprehensions -> loops, flags -> exits) can turn an expression-position call of a new helper into a statement-position one
+  try:
+    before = stats.get('inlined', 0)
+    inline_new_helpers(tree, rel, b.get('inventory', {}), stats)
+    if stats.get('inlined', 0) != before:
+      rename_pass(tree, rel, stats)
+  except Exception as e:
+    stats['inline_error'] = repr(e)
   return tree
 
 
@@ -1270,18 +1994,27 @@ def class_attr_fps(cnode):
 
 def normalize_attrs(trees, stats=None):
   """Package-level pass: rename private instance attributes that were renamed relative to
-  the reference tree (matched by the shape of their first assignment), when the new name is
-  used in one class of one module only."""
+  the reference tree (matched by the shape of their first assignment; equal shapes are paired in order of first
+  assignment).  The renaming covers the class and its (textual) subclasses anywhere in the package."""
   stats = stats if stats is not None else {}
   b = load_baseline().get('classes', {})
   if not b:
     return
-  # how often is each attribute name mentioned per module
-  mentions = {}
-  for rel, tree in trees.items():
-    for n in ast.walk(tree):
-      if isinstance(n, ast.Attribute):
-        mentions.setdefault(n.attr, set()).add(rel)
+  all_classes = [(rel, c) for rel, tree in trees.items() for c in ast.walk(tree) if isinstance(c, ast.ClassDef)]
+
+  def subclasses(name):
+    out, todo = [], [name]
+    seen = set()
+    while todo:
+      nm = todo.pop()
+      for rel, c in all_classes:
+        if id(c) in seen:
+          continue
+        if any((isinstance(x, ast.Name) and x.id == nm) or (isinstance(x, ast.Attribute) and x.attr == nm) for x in c.bases):
+          seen.add(id(c))
+          out.append(c)
+          todo.append(c.name)
+    return out
   for rel, tree in trees.items():
     for c in [x for x in ast.walk(tree) if isinstance(x, ast.ClassDef)]:
       base = b.get(rel + '::' + c.name)
@@ -1292,21 +2025,21 @@ def normalize_attrs(trees, stats=None):
       base_names = [a for a, _ in base]
       mapping = {}
       used = set()
+      subs = subclasses(c.name)
+      sub_attrs = set(n.attr for sc in subs for n in ast.walk(sc) if isinstance(n, ast.Attribute))
       for a, fp in cur:
         if a in base_names or not a.startswith('_') or (a.startswith('__') and a.endswith('__')):
           continue
-        if mentions.get(a, set()) - {rel}:
-          continue
         cands = [ba for ba, bfp in base if bfp == fp and ba not in cur_names and ba not in used]
-        same_fp_cur = [x for x, f2 in cur if f2 == fp and x not in base_names]
-        if len(cands) == 1 and len(same_fp_cur) == 1:
+        if cands and not (cands[0] in sub_attrs and not cands[0].startswith('__')):
           mapping[a] = cands[0]
           used.add(cands[0])
       if mapping:
         stats['attrs_renamed'] = stats.get('attrs_renamed', 0) + len(mapping)
-        for n in ast.walk(c):
-          if isinstance(n, ast.Attribute) and n.attr in mapping and isinstance(n.value, ast.Name) and n.value.id == 'self':
-            n.attr = mapping[n.attr]
+        for k in [c] + [sc for sc in subs if not any(m_.startswith('__') for m_ in mapping)]:
+          for n in ast.walk(k):
+            if isinstance(n, ast.Attribute) and n.attr in mapping and isinstance(n.value, ast.Name) and n.value.id == 'self':
+              n.attr = mapping[n.attr]
 
 
 def baseline_of_tree(trees):
@@ -1329,7 +2062,7 @@ def baseline_of_tree(trees):
   def fn(node, rel, q):
     params, locs = local_defs_fp(node)
     sources[rel + '::' + q] = ast.unparse(node)
-    functions[rel + '::' + q] = {'params': params, 'locals': [[nm, fps] for nm, fps in locs], 'compares': compare_texts(node), 'augs': aug_texts(node), 'ifexps': ifexp_texts(node), 'tuple_assigns': tuple_assign_texts(node)}
+    functions[rel + '::' + q] = {'params': params, 'locals': [[nm, fps] for nm, fps in locs], 'compares': compare_texts(node), 'augs': aug_texts(node), 'ifexps': ifexp_texts(node), 'tuple_assigns': tuple_assign_texts(node), 'whiles': while_texts(node)}
     for n in own_nodes(node):
       if isinstance(n, (ast.FunctionDef, ast.AsyncFunctionDef)):
         fn(n, rel, q + '.' + n.name)
